@@ -38,13 +38,23 @@ Proof. exact step_fail_returns_input. Qed.
    episode of such an instance because of a failed step. That a step may still RAISE (BufferFullError with finite
    capacities) or not return (ordered standalone buffers) is the subject of the refutations below; for the instance of
    C05_refuted_* the hypotheses of this theorem hold too: it never fails - it does not come back. *)
+Theorem C05_step_never_reports_failure_unordered_pre :
+  forall (sigma : oracle) (i : inst) (fuel : nat) (x0 : state) (joker0 : Z) (ta : bool) (r : result) (m : mw)
+         (a : Z) (sto : list (Z * nat)) (m' : mw),
+    inst_nonneg_b i = true -> flex_pre_b i = true ->
+    clock_b x0 = true -> wfs_b i x0 = true -> fresh2_b i x0 = true -> nodep_b x0 = true ->
+    reach sigma i fuel x0 joker0 ta r m -> mw_step sigma i fuel r m a <> MFail sto m'.
+Proof. intros sigma i fuel x0 joker0 ta r m a sto m' Hnn Hp C W Fr Dn H Hm. eapply run_never_fails; eauto. Qed.
+Print Assumptions C05_step_never_reports_failure_unordered_pre.
+
+(* the same for the instance class of the earlier rounds (corollary) *)
 Theorem C05_step_never_reports_failure_flex :
   forall (sigma : oracle) (i : inst) (fuel : nat) (x0 : state) (joker0 : Z) (ta : bool) (r : result) (m : mw)
          (a : Z) (sto : list (Z * nat)) (m' : mw),
     inst_nonneg_b i = true -> flex_post_b i = true -> flex_pre_b i = true ->
     clock_b x0 = true -> wfs_b i x0 = true -> fresh2_b i x0 = true -> nodep_b x0 = true ->
     reach sigma i fuel x0 joker0 ta r m -> mw_step sigma i fuel r m a <> MFail sto m'.
-Proof. intros sigma i fuel x0 joker0 ta r m a sto m' Hnn Hf Hp C W Fr Dn H Hm. eapply flex_never_fails; eauto. Qed.
+Proof. intros. eapply C05_step_never_reports_failure_unordered_pre; eauto. Qed.
 Print Assumptions C05_step_never_reports_failure_flex.
 
 Example C05_never_fails_hypotheses_satisfiable :
